@@ -1169,6 +1169,66 @@ pub fn generate(tier: &str, r: &mut Rng, emit: &mut dyn FnMut(Case)) {
         }
     }
 
+    // 8. FixedSizeList<FixedSizeList<fixed-width>> (2 and 3 levels, sizes 0..3, every level nullable): a null
+    //    FixedSizeList is a single sentinel byte, so the rows of the inner lists are NOT of constant width;
+    //    valid outer entries holding null inner lists must decode back (plain, as a struct field, and followed by
+    //    another column so that a mis-sliced child row shows up in the next column)
+    {
+        fn fsl_val(ty: &Ty, g: &mut Rng, inner_null_pct: u32, top: bool) -> Val {
+            if ty.code != T_FSL { return rand_val(ty, g, &GenCfg { null_pct: 15, big: false }); }
+            if !top && g.chance(inner_null_pct, 100) { return Val::Null; }
+            Val::List((0..ty.param).map(|_| fsl_val(&ty.kids[0], g, inner_null_pct, false)).collect())
+        }
+        let reps = if thorough { 24 } else { 5 };
+        for rep in 0..reps {
+            for (oi, o) in all_opts().into_iter().enumerate() {
+                let leaf = match r.below(9) {
+                    0 => Ty::leaf(T_INT, [1, 2, 4, 8, 16][r.below(5)], 0, 0), 1 => Ty::leaf(T_UINT, [1, 2, 4, 8][r.below(4)], 0, 0),
+                    2 => Ty::leaf(T_BOOL, 0, 0, 0), 3 => Ty::leaf(T_FLOAT, [2, 4, 8][r.below(3)], 0, 0),
+                    4 | 5 => Ty::leaf(T_FSB, [0, 1, 3, 8][r.below(4)], 0, 0), 6 => Ty::leaf(T_IV, r.below(2), 0, 0),
+                    7 => Ty::leaf(T_INT, 4, 0, 2), _ => Ty::leaf(T_INT, 4, 0, 0),
+                };
+                let levels = 2 + (rep + oi) % 2;
+                let mut ty = leaf;
+                for l in 0..levels {
+                    // the outermost list is never of size 0, so that inner lists exist
+                    let size = if l + 1 == levels { [1, 2, 3, 2][r.below(4)] } else { [0, 1, 2, 3, 2, 1][r.below(6)] };
+                    ty = Ty { code: T_FSL, param: size, variant: 0, dict: 0, kids: vec![ty] };
+                }
+                let n = 6 + r.below(9);
+                let mut col: Vec<Val> = Vec::new();
+                for i in 0..n {
+                    col.push(match i % 6 {
+                        0 => if r.chance(1, 3) { Val::Null } else { fsl_val(&ty, r, 100, true) },   // valid outer, every inner list null
+                        1 | 2 => fsl_val(&ty, r, 50, true),                                           // null and valid inner lists mixed
+                        3 => fsl_val(&ty, r, 25, true),
+                        4 => fsl_val(&ty, r, 0, true),                                                // no null list at all
+                        _ => if i > 0 && r.bool() { col[r.below(i)].clone() } else { fsl_val(&ty, r, 70, true) },
+                    });
+                }
+                let (tys, opts, rows): (Vec<Ty>, Vec<SortOptions>, Vec<Vec<Val>>) = match rep % 3 {
+                    0 => (vec![ty.clone()], vec![o], col.into_iter().map(|v| vec![v]).collect()),
+                    1 => {
+                        let st = Ty { code: T_STRUCT, param: 2, variant: 0, dict: 0, kids: vec![ty.clone(), Ty::leaf(T_INT, 2, 0, 0)] };
+                        let rows = col.into_iter().map(|v| vec![if r.chance(1, 10) { Val::Null } else { Val::Struct(vec![v, Val::Int(BigInt::from(r.range(-3, 300)))]) }]).collect();
+                        (vec![st], vec![o], rows)
+                    }
+                    _ => {
+                        let t2 = if r.bool() { Ty::leaf(T_VAR, 0, 2, 0) } else { Ty::leaf(T_INT, 4, 0, 0) };
+                        let cfg2 = GenCfg { null_pct: 10, big: false };
+                        let rows = col.into_iter().map(|v| { let w = rand_val(&t2, r, &cfg2); vec![v, w] }).collect();
+                        (vec![ty.clone(), t2], vec![o, all_opts()[r.below(4)]], rows)
+                    }
+                };
+                let mut b = Batch { tys, opts, rows, prefix: 0, suffix: 0, seed: 0, split: 0, mode: 0, sel: vec![], bk: 0, bm: 0 };
+                layout(&mut b, r);
+                // decode every row at least once: the whole batch, in order, when the random selection is short
+                if b.sel.len() < n { b.sel = (0..n).collect(); if b.mode & 16 != 0 { b.mode &= 15; } }
+                emit_batch(&b, r, emit, 7);
+            }
+        }
+    }
+
     // 5. longer batches (lengths around 64 / 1024: boolean / null-buffer decoding works in 64-row chunks)
     for &n in if thorough { &[63usize, 64, 65, 127, 128, 129, 1023, 1024, 1025][..] } else { &[63usize, 64, 65, 130, 1025][..] } {
         for ty in [Ty::leaf(T_BOOL, 0, 0, 0), Ty::leaf(T_INT, 2, 0, 0), Ty::leaf(T_VAR, 0, 2, 0), Ty::leaf(T_FLOAT, 4, 0, 2),
